@@ -60,6 +60,9 @@ def check(run, F, tier):
                     p2.setdefault("automatic new binding recorded but the emitted packet does not carry the alias", p)
             elif "Connected" in conn.status_at_entry(F, p):
                 p2.setdefault("alias binding recorded but nothing is emitted although status may be Connected", p)
+            elif "get_lru_alias" in repr(conn.expand_all(interned, iou[0][1][3])):
+                # an alias the library chose itself is known to the peer only through the packet that carries topic + alias
+                p2.setdefault("automatic alias binding recorded on a path that emits nothing (status %s): the peer never learns it" % sorted(conn.status_at_entry(F, p)), p)
         if pk is not None and "remove_topic_add_topic_alias" in repr(pk):
             n3 += 1
             if conn.status_at_entry(F, p) != {"Connected"}:
